@@ -126,6 +126,10 @@ func (r *Run) matchKnown(f *Fail) string {
 // Report records a failure. It returns true when the failure is a listed known
 // finding (the caller should then prune the state and continue).
 func (r *Run) Report(f *Fail) (known bool) {
+	if f.API == "harness" {
+		r.HarnessError(f.Scenario + ": " + f.What)
+		return false
+	}
 	r.mu.Lock()
 	defer r.mu.Unlock()
 	if id := r.matchKnown(f); id != "" {
